@@ -99,6 +99,27 @@ static void optenc(void) {
   printf(" %zu\n", coap_opt_encode_size((uint16_t)d, l));
 }
 
+static void optrt(void) {
+  unsigned d = (unsigned)atoi(vtok[1]);
+  size_t l = (size_t)atol(vtok[2]);
+  size_t sz = coap_opt_encode_size((uint16_t)d, l);
+  uint8_t *val = (uint8_t *)malloc(l ? l : 1);
+  uint8_t *buf = (uint8_t *)malloc(sz);
+  coap_option_t o;
+  for (size_t i = 0; i < l; i++) val[i] = (uint8_t)fill_byte(1, i);
+  size_t w = coap_opt_encode(buf, sz, (uint16_t)d, val, l);
+  show_bytes(stdout, buf, w >= l ? w - l : 0);
+  size_t r = coap_opt_parse(buf, w, &o);
+  if (!r) printf(" %zu 0\n", w);
+  else {
+    printf(" %zu %zu %u ", w, r, (unsigned)o.delta);
+    show_bytes(stdout, o.value, o.length);
+    fputc('\n', stdout);
+  }
+  free(val);
+  free(buf);
+}
+
 int main(void) {
   coap_set_log_level(COAP_LOG_EMERG);
   while (next_case(stdin)) {
@@ -107,6 +128,7 @@ int main(void) {
     else if (!strcmp(vtok[0], "c03")) c03();
     else if (!strcmp(vtok[0], "optparse")) optparse();
     else if (!strcmp(vtok[0], "optenc")) optenc();
+    else if (!strcmp(vtok[0], "optrt")) optrt();
     else puts("ERROR unknown command");
   }
   return 0;
